@@ -33,6 +33,7 @@
 -/
 import Proofs.Lemmas.EquivarianceSiftRev
 import Proofs.Lemmas.EquivarianceMask
+import Proofs.Lemmas.ComposeGniEquiv
 
 namespace C02
 open Extrema
@@ -475,5 +476,30 @@ example : Mask.ShiftClosed (fun _ _ i => if i % 2 = 0 then [1, -1, 1] else [-1, 
   intro f i hi
   have : i = 0 ∨ i = 1 := by omega
   rcases this with rfl | rfl <;> simp [Sig.neg]
+
+/-! ## 10. The whole masked pipeline (composition of §3, §7 and §9 with the C07 / C04 models)
+
+  The extraction oracle `X` of §9 is instantiated with `get_next_imf` of the Sift model over the envelopes of
+  the Extrema model (`ComposeGni.gniX (Sift.extEnv I w parab) D o`): the contract `Mask.XSmul` is then a
+  theorem (`ComposeGni.gniX_XSmul`, from §7), and only the interpolant, the energy oracle and `np.std` remain
+  abstract — the model of get_padded_extrema → interp_envelope → get_next_imf → get_next_imf_mask → mask_sift. -/
+
+/-- `mask_sift (c • x) = c • mask_sift x` for the composed pipeline, any `c ≠ 0` (ratio amplitude modes, threshold
+    scaled by `|c|`; for `c < 0` an even number of phases and a mask table closed under the half turn). -/
+theorem maskSift_pipeline_smul (I : Extrema.Interp) (hI : I.Homogeneous) (c : Rat) (hc : c ≠ 0) (w : Nat) (parab : Bool)
+    (D : Sig → Sig → Rat) (hD : Sift.EnergySmul c D D) (o : Sift.ImfOpts)
+    (σ : Nat → Pool.Schedule) (nproc : Nat) (unit : Rat → Nat → Nat → Sig) (std : Sig → Rat)
+    (hstd : Mask.StdAbsHom c std) (cfg : Mask.Cfg) (hmode : cfg.mode ≠ .abs) (hσ : ∀ k, (σ k).Valid cfg.p nproc)
+    (hneg : c < 0 → cfg.p % 2 = 0 ∧ Mask.ShiftClosed unit cfg.p)
+    (src : Mask.FreqSrc) (cap : Nat) (x : Sig) :
+    Mask.maskSift σ (ComposeGni.gniX (Sift.extEnv I w parab) D o) unit std (Mask.scaleCfg c cfg) src cap (Sig.smul c x)
+      = (Mask.maskSift σ (ComposeGni.gniX (Sift.extEnv I w parab) D o) unit std cfg src cap x).map
+          fun r => (r.1.map (Sig.smul c), r.2) := by
+  have hX : Mask.XSmul c (ComposeGni.gniX (Sift.extEnv I w parab) D o) (ComposeGni.gniX (Sift.extEnv I w parab) D o) :=
+    ComposeGni.gniX_XSmul c hc _ _ (Sift.extEnv_smul I hI c hc w parab) D D hD o
+  rcases lt_or_gt_of_ne hc with hlt | hgt
+  · obtain ⟨heven, hu⟩ := hneg hlt
+    exact maskSift_ratio_smul_neg c hlt σ nproc _ _ hX unit std hstd cfg hmode hσ heven hu src cap x
+  · exact maskSift_ratio_smul_pos c hgt σ nproc _ _ hX unit std hstd cfg hmode hσ src cap x
 
 end C02
